@@ -42,12 +42,17 @@ def run(ctx):
     ctx.vh("c24", [tp], timeout=3000)
     runs = [json.loads(l) for l in open(tp)]
     # (1) observed invariants: the verdict
-    r = ctx.tlc("TraceSFP", cfg="TraceSFP.cfg", files={"sfp_trace.ndjson": open(tp).read()}, dirname="tla-obs", timeout=1800)
+    # in chunks: TLC holds the whole deserialised file and the verdict sequence in memory, and the time it needs
+    # grows faster than linearly with the number of runs in one file
     bad = 0
     verd = {}
-    for l in open(r.dir + "/sfp_verdicts.ndjson"):
-        v = json.loads(l)
-        verd[v["id"]] = v
+    lines = open(tp).read().splitlines(True)
+    CH = 400
+    for ci in range(0, len(lines), CH):
+        r = ctx.tlc("TraceSFP", cfg="TraceSFP.cfg", files={"sfp_trace.ndjson": "".join(lines[ci:ci + CH])}, dirname="tla-obs%d" % (ci // CH), timeout=1800)
+        for l in open(r.dir + "/sfp_verdicts.ndjson"):
+            v = json.loads(l)
+            verd[v["id"]] = v
     if len(verd) != len(runs):
         raise vlib.ToolingError("TraceSFP judged %d of %d runs" % (len(verd), len(runs)))
     byid = {x["id"]: x for x in runs}
